@@ -180,6 +180,9 @@ def _with_facts(e, s):
     f = census.site_facts(s)
     if f:
         e["facts"] = f
+    a = census.site_args(s)
+    if a is not None:
+        e["args"] = a
     return e
 
 
